@@ -100,7 +100,7 @@ pub fn execute(duts: &mut Duts, c: &J) -> J {
             let n = c["N"].as_u64().unwrap() as usize;
             J::Array(d.process(n, script_of(c)))
         }
-        "procset" => {
+        "procset" | "procdiff" => {
             // one stream, several delivery schedules (C07); optionally also message by message
             let n = c["N"].as_u64().unwrap() as usize;
             let mut vs = Vec::new();
